@@ -1,4 +1,5 @@
 import ThruVerif.Model.Admission
+import ThruVerif.Gen.Shapes
 import Mathlib.Data.List.Nodup
 import Mathlib.Data.List.Perm.Subperm
 /-!
@@ -569,5 +570,15 @@ example : (run (init 1 600) [.joined 1 0, .accept 1 0, .joined 2 0, .accept 2 0]
 /-- the P11 history (stale finish after leave + re-accept) no longer frees the new slot -/
 example : ((run (init 1 600) [.accept 1 0, .left 1 0, .accept 1 0, .accept 2 0, .finished 0 false 0]).running.filter
     (fun r => !r.cancelled)).length = 1 := by decide
+
+/-! ## the decision structure of the source, as regenerated on this run (xlate, `Gen/Shapes.lean`) -/
+
+open TV.Gen.Shapes in
+/-- admission: the start loop's guards, the slot *identity* test of a returning transfer, and the leave handler -/
+theorem C12_source_shapes :
+    admission_start = ["len(s.active) >= s.maxRecv || len(s.queue) == 0", "state == nil", "state.Status == ReceiverStatusTransferring"] ∧
+    admission_slot_identity = ["s.active[peerID] == slot"] ∧
+    admission_left = ["state != nil && state.Status != ReceiverStatusDone", "slot != nil", "slot != nil ; slot.closeFn != nil",
+      "slot != nil ; slot.cancel != nil", "queued != peerID"] := by decide
 
 end TV.C12
